@@ -373,6 +373,42 @@ def plot_worker(job):
                             fail = f"the layout is not reproducible for layout seed {o['seed']}: two calls placed the nodes differently"
                     obs["repro_checked"] = True
                 out.append((fail, obs))
+            # the SAME graph object is edited in place (node and edge counts unchanged) and plotted again; a never-plotted twin
+            # (exact pickle copy taken before, same edit applied) is plotted with the same options: plotting must be total on the
+            # edited object, place every current node, and give the layout of the twin (no memory of earlier plot calls)
+            if repro and out and out[0][0] is None and G.number_of_nodes() >= 2:
+                import pickle
+                o = opts[0]
+                twin = pickle.loads(pickle.dumps(G))
+                for H in (G,):
+                    plot_once(H, o, tmp, f"g{gi}_warm")            # make sure G has been plotted with exactly these options
+                kind = "relabel" if gi % 2 == 0 or G.number_of_edges() == 0 else "rewire"
+                def edit(H):
+                    nodes = list(H.nodes())
+                    if kind == "relabel":
+                        import networkx as nx
+                        nx.relabel_nodes(H, {nodes[0]: ("renamed", gi)}, copy=False)
+                        return f"nx.relabel_nodes(G, {{{nodes[0]!r}: ('renamed', {gi})}}, copy=False)"
+                    u, v, kk, d = list(H.edges(keys=True, data=True))[0]
+                    H.remove_edge(u, v, kk)
+                    tgt = next(((a, b) for a in nodes for b in nodes if a != b and not H.has_edge(a, b) and (a, b) != (u, v)), (v, u))
+                    H.add_edge(tgt[0], tgt[1], **d)
+                    return f"edge {u!r}->{v!r} removed and edge {tgt[0]!r}->{tgt[1]!r} added with the same attributes"
+                what = edit(G)
+                edit(twin)
+                fa, oa = plot_once(G, o, tmp, f"g{gi}_edited")
+                fb, ob = plot_once(twin, o, tmp, f"g{gi}_twin")
+                hist = None
+                if fa is not None:
+                    hist = fa
+                elif fb is None:
+                    a, b = oa["pos"], ob["pos"]
+                    if list(map(repr, a)) != list(map(repr, b)) or any(not np.array_equal(a[n], b[n]) for n in a):
+                        hist = ("the layout differs from the one a never-plotted identical graph gets with the same seed "
+                                f"{o['seed']} (state carried over from the earlier plot call)")
+                out[0][1]["history_checked"] = kind
+                if hist is not None:
+                    out[0] = (f"after plotting this graph, editing the same object in place ({what}) and plotting it again: " + hist, out[0][1])
     finally:
         sys.stdout = old
     return gi, out
@@ -641,6 +677,8 @@ def _run(chk, pool, th, bg):
                 chk.count(f"plot.opt.{b}={o[b]}")
             if obs.get("repro_checked"):
                 chk.count("plot.reproducibility_checked")
+            if obs.get("history_checked"):
+                chk.count("plot.in_place_edit_history." + obs["history_checked"])
             if o["save"]:
                 chk.count("plot.saved_to_file")
             if any(u == v for u, v in G.edges()):
